@@ -7,7 +7,7 @@ from core import *
 
 LANGS = ["kotlin", "java", "groovy", "scala"]
 C01_CLAUSES = ("InitAssignable", "ArgAssignable", "ResultAssignable", "AssignAssignable", "TypeArgWithinBound", "AbstractImplemented",
-               "AbstractInRegular", "OverrideCompatible", "NoFinalSuper", "BranchBelowCond")
+               "AbstractInRegular", "OverrideCompatible", "NoFinalSuper", "BranchBelowCond", "OperandsComparable", "OperandsBoolean")
 C05_CLAUSES = ("Resolved", "ArityAdmitted", "AssignTargetNonFinal", "InstantiatedConcrete", "TypeVarsInScope", "FreshInScope", "NotReserved",
                "CaptureFinal", "UnknownEvent", "WalkBalanced")
 C03_CLAUSES = ("TypeArgsNotInferable", "VarTypeNotInferable", "ReturnNotInferable")
